@@ -87,6 +87,10 @@ def handle (st : St) (op : String) (args : List String) (impl : Option String) :
       | some f => f
       | none => if impl.isSome then "ok" else "-"
     some (st, { model := model, spec := spec })
+  | "wconc", [_, _, _] =>
+    -- any interleaving of whole operations is a timed history of the sequential model
+    -- (`window_ops_atomic`), in which no live sample is lost, duplicated or invented (`window_spec`)
+    some (st, { model := "lost=0,dup=0,phantom=0" })
   | "get", [vs] =>
     if vs = "-" then some (st, { model := "none" })
     else
